@@ -44,7 +44,7 @@ class Forms:
         if form == 'generator': return eval('select(e for e in E if %s)' % self.src, self.G)
         if form == 'lambda': return eval('E.select(lambda e: %s)' % self.src, self.G)
         if form == 'string': return select('e for e in E if %s' % self.src, self.G)
-        if form == 'filter': return eval('E.select().filter(lambda e: %s)' % self.src, self.G)
+        if form == 'filter': return self.E.select().filter('lambda e: %s' % self.src, self.G)
         if form == 'projection': return eval('select((e.id, %s) for e in E)' % self.src, self.G)
         raise ValueError(form)
     def decompiled(self, form):
@@ -81,9 +81,16 @@ def sqlite_three_valued(db, q, nrows):
 
 
 # known classes of failing inputs (keys of proposed known findings); everything else is keyed by its own minimal expression
-def classify(e):
-    """canonical key of a minimal failing expression"""
+def classify(e, form, string_form_ok):
+    """canonical key of a minimal failing expression (None: no known class)"""
     def has(pred): return any(pred(s) for s in Q.subexprs(e))
+    if form in ('generator', 'lambda') and string_form_ok:
+        # the string form of the same query is right: the decompiler changed the meaning (C03's territory, reaches C01 too)
+        if has(lambda s: s[0] == 'ite'): return 'decompiler-conditional-expression-in-boolean-context'
+        if has(lambda s: s[0] == 'cmp' and any(x[0] in ('and', 'or') for x in s[2:4])): return 'decompiler-and-or-used-as-value'
+        return None
+    if form == 'filter' and Q.is_value(e) and Q.static_type(e) != 'bool':
+        return 'filter-lambda-value-not-truth-tested'
     if has(lambda s: s[0] == 'not' and s[1][0] in ('and', 'or') and not Q.exact(s[1])):
         return 'not-over-and-or-with-nullable-truth-test'
     if has(lambda s: s[0] == 'like' and s[2] and not Q.never_null(s[4])):
@@ -93,12 +100,14 @@ def classify(e):
     if has(lambda s: s[0] == 'cmp' and s[2][0] != 'none' and s[3][0] != 'none' and Q.is_value(s[2]) and Q.is_value(s[3])
            and (Q.static_type(s[2]) == 'str') != (Q.static_type(s[3]) == 'str')):
         return 'int-compared-with-str-affinity'
+    if has(lambda s: s[0] == 'in' and Q.is_value(s[2]) and any(isinstance(i, str) != (Q.static_type(s[2]) == 'str') for i in s[3])):
+        return 'int-compared-with-str-affinity'
     return None
 
 
 def run_fragment(ctx, mode, n_exprs, max_depth):
     rng = ctx.rng
-    gen = Q.Gen(rng, mode)
+    gen = Q.ExtGen(rng) if mode == 'ext' else Q.Gen(rng, mode)
     exprs = [gen.expr(rng.choice([1, 2, 2, 3, 3, max_depth])) for i in range(n_exprs)]
     sch = Q.schema_json()
     db, E = fresh_db()
@@ -124,14 +133,15 @@ def run_fragment(ctx, mode, n_exprs, max_depth):
             py_reqs.append({'op': 'py', 'expr': Q.to_json(e), 'params': params, 'rows': rows}); py_meta.append((e, params))
             tr_reqs.append({'op': 'translate', 'dialect': 'sqlite', 'schema': sch, 'expr': Q.to_json(e)}); tr_meta.append((s, 'source', None, mode))
             first_q = None
-            for form in ('generator', 'lambda', 'string'):
+            for form in ('generator', 'lambda', 'string') + (('filter',) if mode == 'ext' else ()):
                 q, real = real_conditions(forms, form)
                 ctx.case([mode, form, s], nontrivial=nonconst, kind='%s:%s' % (mode, form))
                 if 'ok' in real: ctx.count('%s:translated' % mode)
                 else: ctx.count('%s:%s:raises:%s' % (mode, form, real['error']))
                 # expression Pony really translates in this form
                 tex = e
-                if form != 'string':
+                if form == 'filter': tex = None
+                elif form != 'string':
                     try: tex = forms.decompiled(form)
                     except Q.Unsupported: tex = None; ctx.count('%s:decompiled-ast-outside-model' % mode)
                     except Exception: tex = None
@@ -146,7 +156,7 @@ def run_fragment(ctx, mode, n_exprs, max_depth):
                 try:
                     got = sorted(o.id for o in q)
                 except Exception as ex:
-                    got = 'raised ' + type(ex).__name__
+                    ctx.count('%s:%s:execution-raises:%s' % (mode, form, type(ex).__name__)); continue     # an error, not different rows
                 if got != expected:
                     report_violation(ctx, db, E, rows, e, params, form, got, expected)
             if first_q is not None:
@@ -192,6 +202,8 @@ def run_fragment(ctx, mode, n_exprs, max_depth):
         ctx.count('%s:evaluator-checked' % md)
         if 'ok' not in out:
             ctx.count('%s:evaluator-unsupported-node' % md); continue
+        if md == 'ext' and 'err' in out['ok']:
+            ctx.count('ext:evaluator-refuses-untyped-operation'); continue
         if out['ok'] != lite:
             sel_model = [i + 1 for i, k in enumerate(out['ok']) if k == Q.TT]
             sel_lite = [i + 1 for i, k in enumerate(lite) if k == Q.TT]
@@ -202,39 +214,44 @@ def run_fragment(ctx, mode, n_exprs, max_depth):
             ctx.divergence('Lean Sql.eval differs from real SQLite on the emitted statement', {'expr': s, 'rows(id, model, sqlite)': bad}, model=out['ok'], impl=lite)
 
 
+def rows_of(E, x, params, form):
+    with db_session:
+        return sorted(o.id for o in Forms(E, Q.src(x), params).build(form))
+
+
 def report_violation(ctx, db, E, rows, e, params, form, got, expected):
-    """shrink the expression and the data, then register the violation under the canonical key of the minimal input"""
-    def failing(x, rws=None):
-        rws = rows if rws is None else rws
-        try:
-            q = Forms(E, Q.src(x), params).build(form)
-            with db_session:
-                g = sorted(o.id for o in q)
-        except Exception:
-            return False
-        exp = [i + 1 for i, r in enumerate(rows) if Q.as_k(Q.py_eval(x, r, params)) == Q.TT]
-        return g != exp
-    small = Q.shrink(e, failing) if isinstance(got, list) else e
-    try:
-        with db_session:
-            g = sorted(o.id for o in Forms(E, Q.src(small), params).build(form))
-    except Exception as ex:
-        g = 'raised ' + type(ex).__name__
-    exp = [i + 1 for i, r in enumerate(rows) if Q.as_k(Q.py_eval(small, r, params)) == Q.TT]
+    """shrink the expression, then register the violation under the canonical key of the minimal input"""
+    def exp_of(x): return [i + 1 for i, r in enumerate(rows) if Q.as_k(Q.py_eval(x, r, params)) == Q.TT]
+    def failing(x):
+        try: return rows_of(E, x, params, form) != exp_of(x)
+        except Exception: return False
+    small = Q.shrink(e, failing)
+    try: g = rows_of(E, small, params, form)
+    except Exception as ex: g = 'raised ' + type(ex).__name__
+    exp = exp_of(small)
+    string_ok = None
+    if form != 'string':
+        try: string_ok = rows_of(E, small, params, 'string') == exp
+        except Exception: string_ok = False
     wrong = sorted(set(g) ^ set(exp)) if isinstance(g, list) else []
     witness = rows[wrong[0] - 1] if wrong else None
     used = sorted({s[1] for s in Q.subexprs(small) if s[0] == 'attr'})
-    key = classify(small) or ('expr:' + json.dumps(Q.to_json(Q.canon_atoms(small))))
-    ctx.count('violations-before-dedup')
+    key = classify(small, form, string_ok) or ('expr:%s:%s' % (form, json.dumps(Q.to_json(Q.canon_atoms(small)))))
+    ctx.count('violations-before-dedup'); ctx.count('violation-class:' + (key if not key.startswith('expr:') else 'unclassified'))
     ctx.violation('rows returned differ from Python evaluation of the same expression (%s form)' % form,
-                  {'query': 'select(e for e in E if %s)' % Q.src(small), 'form': form, 'params': {k: v for k, v in params.items() if ('param', k) in set(Q.subexprs(small))},
+                  {'query': QUERY_TEXT[form] % Q.src(small), 'form': form, 'params': {k: v for k, v in params.items() if any(x == ('param', k) for x in Q.subexprs(small))},
                    'witness_row': {k: witness[k] for k in used} if witness else None, 'original': Q.src(e)},
                   observed={'ids': g, 'selects_witness': (wrong[0] in g) if wrong and isinstance(g, list) else None},
                   expected={'ids': exp}, key=key)
 
 
+QUERY_TEXT = {'generator': 'select(e for e in E if %s)', 'lambda': 'E.select(lambda e: %s)', 'string': "select('e for e in E if %s')",
+              'filter': "E.select().filter('lambda e: %s')"}
+
+
 def run(ctx):
-    run_fragment(ctx, 'frag', ctx.scale(120, 1500), 4)
+    run_fragment(ctx, 'frag', ctx.scale(300, 3000), 4)
+    run_fragment(ctx, 'ext', ctx.scale(200, 2000), 4)
 
 
 def replay(ctx, data):
